@@ -102,6 +102,9 @@ def run(tier, seed):
                 steps.append((op, listing(d)))
                 # ---- observations: yaml == memory == recorded list
                 for (y, m, rec, evs) in handles:
+                    mem_ev = [e["id"] for e in m.events.get("hop", [])]
+                    if mem_ev != [e["id"] for e in evs]:
+                        bad.append(dict(failed="a cloned trace holds the same history but evolves independently of its original: in-memory events %r, recorded on this trace %r" % (mem_ev, [e["id"] for e in evs]), case=dict(info))); raise StopIteration
                     if len(y) != len(m) or len(y) != len(rec):
                         bad.append(dict(failed="length equals the number of recorded snapshots (yaml %d, memory %d, recorded %d)" % (len(y), len(m), len(rec)), case=dict(info))); raise StopIteration
                 if rng.random() < 0.5:
@@ -126,6 +129,9 @@ def run(tier, seed):
                         bad.append(dict(failed="iteration returns the recorded snapshots in order", case=dict(info))); raise StopIteration
         except StopIteration:
             pass
+        except Exception as ex:
+            import traceback
+            bad.append(dict(failed="a legal sequence of trace operations raised %s: %s" % (type(ex).__name__, ex), case=dict(info), trace=traceback.format_exc()[-600:]))
         # ---- collect command tabulates the logged values
         if handles and len(handles[0][2]) > 0:
             from mudslide.collect import collect
